@@ -15,7 +15,7 @@ REGR=$(echo "$RAW" | grep "suite-regression" | tr '\n' ';')
 timeout 1800 /verif/tools/mutcheck.sh $OUT/patch.diff $PROP > $OUT/.mutcheck.out 2>&1
 MRC=$?
 DET=$(grep -v "^proptest\|KNOWN" $OUT/.mutcheck.out)
-rm -f $OUT/.mutcheck.out
+grep -v '^KNOWN' $OUT/.mutcheck.out | cut -c1-600 | head -40 > $OUT/mutcheck.log; rm -f $OUT/.mutcheck.out
 python3 - "$PROP" "$X" "$DEST" "$CMD" "$CONF" "$OUT" "$REGR" "$MRC" <<PY
 import json,sys,subprocess
 prop,x,dest,cmd,conf,out,regr,mrc=sys.argv[1:9]
